@@ -147,10 +147,21 @@ def ev(fn, n, atom=None, depth=0):
         raise Unevaluable(n.op)
     if k == "BinaryOperator":
         op = n.op
-        if op == "&&":
-            return 1 if (ev(fn, n.kids[0], atom, depth + 1) and ev(fn, n.kids[1], atom, depth + 1)) else 0
-        if op == "||":
-            return 1 if (ev(fn, n.kids[0], atom, depth + 1) or ev(fn, n.kids[1], atom, depth + 1)) else 0
+        if op in ("&&", "||"):
+            # three-valued: a conjunction with one operand known to be 0 is 0 whatever the unknown operands are (and dually for ||)
+            decisive = 0 if op == "&&" else 1
+            unknown = None
+            for kid in n.kids[:2]:
+                try:
+                    v = 1 if ev(fn, kid, atom, depth + 1) else 0
+                except Unevaluable as e:
+                    unknown = e
+                    continue
+                if v == decisive:
+                    return decisive
+            if unknown is not None:
+                raise unknown
+            return 1 - decisive
         if op == "=":
             # value of an assignment expression: the converted right-hand side
             return wrap(ev(fn, n.kids[1], atom, depth + 1), n.t)
@@ -524,7 +535,7 @@ def check_init(ctx, P, fname, fields, calls=(), rule="init", why="a primitive th
     for rec, fl, want in fields:
         sts = f.stores_to(rec, fl)
         if not sts:
-            zeroed = [s for s in f.stores() if s.kind == "memset" and s.value is not None and strip(s.value).cv == 0] or f.calls("calloc")
+            zeroed = [s for s in f.stores() if s.kind == "memset" and s.value is not None and strip(s.value).cv == 0] or zeroed_alloc_calls(f)
             if want == 0 and zeroed:
                 continue
             bad = bad or "`%s` is never initialised" % fl
@@ -557,7 +568,7 @@ def check_init(ctx, P, fname, fields, calls=(), rule="init", why="a primitive th
                 bad = bad or "`%s` starts as `%s`, expected %s" % (fl, s.value.text if s.value is not None else "?", want)
     for c in calls:
         name = c if isinstance(c, str) else c[0]
-        cs = f.calls(name)
+        cs = f.calls(name) if name != "calloc" else zeroed_alloc_calls(f)     # "calloc" stands for any zero-filled allocation
         need = 1 if isinstance(c, str) else c[1]
         if len(cs) < need:
             bad = bad or "%s is called %d time(s), expected %d" % (name, len(cs), need)
@@ -706,10 +717,41 @@ def check_zeroed_alloc(ctx, P, fname, rule, what, why, file=None):
                     return params[m.did] + k
             return None
         return atom
-    rets = [r for r in fn.returns() if r.kids and strip(r.kids[0]) is not None and strip(r.kids[0]).cv != 0]
     for a in var:
         if a.callee == "calloc":
             continue
+        sz = fn.args(a)[ALLOC_SIZE_ARG[a.callee][0]]
+        ok = alloc_is_zeroed(fn, a)
+        if not ok:
+            bad = bad or ("the object allocated by `%s` is not zero-filled over its whole size (%s) before it is returned" % (a.text[:60], sz.text[:40]), a)
+    o.check(bad is None, "%d variable-sized allocation(s), all zero-filled" % len(var), bad[0] if bad else None, site=bad[1] if bad else None,
+            construct="trailing array not zero-initialised")
+
+
+def zeroed_alloc_calls(fn):
+    """the allocation calls of fn whose block is zero-filled over its whole size: calloc, or malloc-like followed by a full-size memset"""
+    return [c for c in fn.calls() if (c.callee == "calloc") or (c.callee in ALLOC_SIZE_ARG and alloc_is_zeroed(fn, c))]
+
+
+def alloc_is_zeroed(fn, a):
+    """is the block returned by allocation call `a` zero-filled over its whole size on every path on which the allocation succeeded and
+    the function goes on to use / return the block?"""
+    if a.callee == "calloc":
+        return True
+    if a.callee not in ALLOC_SIZE_ARG:
+        return False
+    params = {p["did"]: 3 + 4 * i for i, p in enumerate(fn.params)}
+
+    def sample(k):
+        def atom(n):
+            if n.k == "ImplicitCastExpr" and n.ck == "LValueToRValue":
+                m = strip(n)
+                if m is not None and m.k == "DeclRefExpr" and m.dk == "param" and m.did in params:
+                    return params[m.did] + k
+            return None
+        return atom
+    if True:
+        rets = [r for r in fn.returns() if not r.kids or strip(r.kids[0]) is None or strip(r.kids[0]).cv != 0]
         sz = fn.args(a)[ALLOC_SIZE_ARG[a.callee][0]]
         ok = False
         for m in fn.calls(("memset", "__builtin_memset", "__builtin___memset_chk", "bzero")):
@@ -733,10 +775,7 @@ def check_zeroed_alloc(ctx, P, fname, rule, what, why, file=None):
             e_ok = forced_edges(fn, atom_from([(lambda x, a=a: x is a, 0 if a.callee == "posix_memalign" else 4096)]))     # the allocation succeeded
             if all(fn.find_path(a, lambda x, r=r: x is r, barrier=lambda x, m=m: x is m, edge_ok=e_ok) is None for r in rets):
                 ok = True
-        if not ok:
-            bad = bad or ("the object allocated by `%s` is not zero-filled over its whole size (%s) before it is returned" % (a.text[:60], sz.text[:40]), a)
-    o.check(bad is None, "%d variable-sized allocation(s), all zero-filled" % len(var), bad[0] if bad else None, site=bad[1] if bad else None,
-            construct="trailing array not zero-initialised")
+        return ok
 
 
 def check_alloc_size(ctx, P, fname, rec, rule, why, kparam=0, ks=(1, 2, 10, 16, 28, 29, 30, 31), slot_bytes=8):
@@ -802,3 +841,11 @@ def macro_constant(P, name, required=True):
     if bad is None and len(vals) != 1:
         bad = "%s has different values in different places: %s" % (name, sorted(vals))
     return (vals.pop() if len(vals) == 1 else None), bad, site
+
+
+def writer_kind(s):
+    """kind of a write for the writers tables: a plain assignment and an atomic store (of any order) are both "assign" -- what the tables
+    separate is stores from read-modify-writes; orders are checked by the rules that need them"""
+    if s.kind in ("atomic", "sync") and s.aop != "store":
+        return s.aop
+    return "assign"
